@@ -51,7 +51,7 @@ PROPS = {
                       "theorems; they are additionally judged on every run by Oracle.C11b on the implementation's output.",
     },
     "C06": {
-    "generators": [("c06a", 4000, 120000), ("c06idx", 6000, 60000), ("c06pc", 3000, 60000), ("c04build", 1600, 24000),
+    "generators": [("c06a", 4000, 120000), ("c06idx", 6000, 60000), ("c06pc", 3000, 60000), ("c04build", 1600, 24000), ("c06lcell", 3200, 48000),
                    # every evaluation path of Loop / Polygon / ContainsPointQuery containment vs the exact parity (the index path of
                    # Polygon.ContainsCell / IntersectsCell goes through Polygon.iteratorContainsPoint): shared with C04
                    ("c04", 2400, 24000)],
@@ -68,12 +68,15 @@ PROPS = {
             "padded cells (c06pc): all cells of levels 0..2 (0..4 thorough) of every face + c01's boundary-structured random cells (levels 0..30, "
             "face corners/edges, coarse grid lines); paddings 0, ShapeIndex cellPadding, eps, 2^-20..2^-60, up to 0.5; FromParentIJ chains of "
             "length 1..30 (random / corner-hugging / grid-line-hugging, from faces down to leaves); Next() incl. last-child carry chains; "
-            "ShrinkToFit rects always containing a point of the real Bound() (ends, midpoint, one ulp inside, random) with extents 0 … 3",
+            "ShrinkToFit rects always containing a point of the real Bound() (ends, midpoint, one ulp inside, random) with extents 0 … 3; "
+            "c06lcell: loops / star loops / polygons of radius 0.25 .. 1.45 rad (long edges spanning several cube faces) under coarse coverer "
+            "configurations (InteriorCovering asks ContainsCell, Covering asks IntersectsCell: ops cov) and pred lines (ContainsCell / IntersectsCell "
+            "judged against points exactly in the cell) for cells of level 0..7 at and next to loop vertices",
     "nontrivial": lambda l: (l.startswith("c06shape") and " 0 0 - - - -" not in l and " 0 1 - " not in l)
                             or ((l.startswith("c06loc") or l.startswith("c06seek")) and not l.split(" ")[1] == "-")
                             or l.startswith("c06pcpath") or l.startswith("c06pcnext")
                             or (l.startswith("c06pcshrink") and l.split(" ")[1] != l.split(" ")[-1])
-                            or l.startswith("c04cross") or l.startswith("c04cpq")
+                            or l.startswith("c04cross") or l.startswith("c04cpq") or l.startswith("pred ") or l.startswith("cov ")
                             or (l.startswith("c04idx") and l.split(" C ", 1)[-1].count(" ") >= 1)
                             or (l.startswith("c04build ") and l.split(" C", 1)[-1].strip() != ""),
     "trusted_base": [
